@@ -5,10 +5,7 @@
 pub use proc_macro2::Ident;
 use proc_macro2::{Punct, Spacing, Span, TokenTree};
 
-/// harness-side token tree descriptor (same #[repr(C)] layout as tokens.rs::Tt)
-#[derive(Clone, Copy)]
-#[repr(C)]
-pub struct RawTt { pub kind: u8, pub ch: u8, pub joint: bool, pub keyword: bool }
+pub use proc_macro2::RawTt;
 
 pub struct Error;
 impl Error {
@@ -84,7 +81,7 @@ pub mod buffer {
             } else { None }
         }
         pub fn token_tree(self) -> Option<(TokenTree, Cursor<'a>)> {
-            if self.pos < self.toks.len() { Some((TokenTree { idx: self.pos as u32 }, Cursor { toks: self.toks, pos: self.pos + 1 })) } else { None }
+            if self.pos < self.toks.len() { Some((TokenTree::of(self.toks, self.pos), Cursor { toks: self.toks, pos: self.pos + 1 })) } else { None }
         }
     }
 }
@@ -145,7 +142,10 @@ pub mod parse {
     pub struct StepCursor<'c, 'a> { cursor: buffer::Cursor<'c>, _m: core::marker::PhantomData<&'a ()> }
     impl<'c, 'a> core::ops::Deref for StepCursor<'c, 'a> { type Target = buffer::Cursor<'c>; fn deref(&self) -> &Self::Target { &self.cursor } }
     impl<'a> ParseBuffer<'a> {
-        pub fn new(toks: &'a [RawTt]) -> Self { ParseBuffer { toks, pos: Cell::new(0) } }
+        pub fn new(toks: &'a [RawTt]) -> Self {
+            unsafe { proc_macro2::TOKENS = (toks.as_ptr(), toks.len()); }
+            ParseBuffer { toks, pos: Cell::new(0) }
+        }
         pub fn cursor(&self) -> buffer::Cursor<'a> { buffer::Cursor { toks: self.toks, pos: self.pos.get() } }
         pub fn is_empty(&self) -> bool { self.cursor().eof() }
         pub fn step<F, R>(&self, function: F) -> Result<R>
